@@ -1,6 +1,7 @@
 import Txtpp.Lemmas.PathNameFacts
 import Txtpp.Lemmas.SeenClosure
 import Txtpp.Lemmas.Hermetic
+import Txtpp.Lemmas.ScanSpec
 /-!
 # Property C11 — exactly the requested sources are processed and outputs are named correctly
 
@@ -61,5 +62,27 @@ theorem processed_once_each (w : Coord.World) (inputs : List Coord.File) (s : Co
 
 example : removeTxtpp ['l', 'i', 'b', '.', 'm', 'i', 'n', '.', 't', 'x', 't', 'p', 'p', '.', 'j', 's'] =
     some ['l', 'i', 'b', '.', 'm', 'i', 'n', '.', 'j', 's'] := by decide
+
+/-- **Directory inputs.** With the fuel `Txtpp::run` gives it, the directory walk finds exactly the
+txtpp-named regular files that lie directly inside an input directory or - recursive mode only - inside
+a directory below one: no other file, nothing from a directory that was not requested, and nothing is
+missed however deep or wide the tree is. -/
+theorem directory_inputs_find_exactly_the_sources_below (fs : Txt.FS) (recursive : Bool) (dirs : List Txt.Path) (p : Txt.Path) :
+    p ∈ Txt.scanAll fs recursive (fs.dirs.length + dirs.length + 2) dirs [] ↔
+      ∃ d, Txt.Desc fs recursive dirs d ∧ Txt.IsSrcIn fs d p :=
+  Txt.scanAll_spec fs recursive dirs p
+
+/-- without `-r` only the input directories themselves are looked at -/
+theorem non_recursive_scans_only_the_inputs (fs : Txt.FS) (dirs : List Txt.Path) (d : Txt.Path)
+    (h : Txt.Desc fs false dirs d) : d ∈ dirs := by
+  induction h with
+  | root hm => exact hm
+  | child hr _ _ _ => simp at hr
+
+/-- a file found by the walk is a txtpp-named file of the tree whose parent is the scanned directory -/
+theorem scanned_file_is_a_source (fs : Txt.FS) (r : Bool) (d p : Txt.Path) (h : p ∈ (Txt.scanDir fs r d).1) :
+    (∃ b, (p, b) ∈ fs.files) ∧ p.dropLast = d ∧ ∃ n, p.getLast? = some n ∧ PathName.isTxtppFile n = true := by
+  obtain ⟨h1, _, h3, h4⟩ := (Txt.mem_scanDir_files fs r d p).1 h
+  exact ⟨h1, h3, h4⟩
 
 end C11
